@@ -468,6 +468,8 @@ class Body:
             return ("const", ord(rust_unescape(m.group(1))[0]))
         if txt in ("const ()", "()"):
             return ("unit",)
+        if "array_vals" in op:
+            return ("array", tuple(("const", v) for v in op["array_vals"]))
         if "const_path" in op:
             return ("constp", op["const_path"])
         return ("constx", txt)
@@ -1311,6 +1313,49 @@ def pred_summary(cb):
         f = norm_cond(e, True)
         facts.add(f)
         out.append(frozenset(facts))
+    return out
+
+
+def some_summary(cb):
+    """for an Option-returning closure body (filter_map / find_map argument): list of fact sets, the closure returns Some(..)
+    iff one of the conjunctions holds; None if the closure's result is not of a recognised shape"""
+    out = []
+    for d in cb.defs().get(0, []):
+        bb, idx, kind, pl = d
+        site = (bb, idx)
+        facts = set(cb.facts_at(site))
+        if kind == "assign":
+            rv = pl
+            if rv["k"] == "aggregate" and rv.get("adt") == "Option":
+                if rv.get("variant") == "Some":
+                    out.append(frozenset(facts))
+                continue
+            return None
+        t = pl
+        c = t["callee"]
+        if c.get("name") == "then_some" and len(t["args"]) == 2:
+            arms = cb.bool_arms(t["args"][0], site) if t["args"][0].get("k") in ("copy", "move") else None
+            if arms is not None:
+                for dsite, cval, arv, neg in arms:
+                    afacts = set(cb.facts_at(dsite)) | facts
+                    if cval is not None:
+                        if cval:
+                            out.append(frozenset(afacts))
+                    elif arv is not None:
+                        f = norm_cond(cb.expr_rvalue(arv, dsite), not neg)
+                        if f[0] == "const":
+                            if f[1]:
+                                out.append(frozenset(afacts))
+                        else:
+                            out.append(frozenset(afacts | {f}))
+                    else:
+                        return None
+            else:
+                cond = cb.call_args(t, site)[0]
+                f = norm_cond(cond, True)
+                out.append(frozenset(facts | {f}))
+            continue
+        return None
     return out
 
 
